@@ -54,18 +54,33 @@ func runC18(c *Ctx) {
 	for _, m := range methods {
 		isMethod[m] = true
 	}
-	// transitive (within the package's methods) guarded access
-	tw, tr := map[*ssa.Function]bool{}, map[*ssa.Function]bool{}
+	// plain package-level helpers (a predicate over a *Seat, say) count like unexported methods:
+	// they touch the guarded fields on behalf of whoever calls them
+	units := append([]*ssa.Function{}, methods...)
+	inUnits := map[*ssa.Function]bool{}
 	for _, m := range methods {
+		inUnits[m] = true
+	}
+	for _, fn := range p.Funcs {
+		if fn.Pkg != nil && shortPkg(fn.Pkg.Pkg.Path()) == smPkg && fn.Signature.Recv() == nil && fn.Parent() == nil && fn.Blocks != nil &&
+			!token.IsExported(fn.Name()) && fn.Name() != "init" && ix.Info[fn] != nil && !inUnits[fn] {
+			units = append(units, fn)
+			inUnits[fn] = true
+		}
+	}
+	sort.Slice(units[len(methods):], func(i, j int) bool { return units[len(methods)+i].Name() < units[len(methods)+j].Name() })
+	// transitive (within the package) guarded access
+	tw, tr := map[*ssa.Function]bool{}, map[*ssa.Function]bool{}
+	for _, m := range units {
 		w, r := guardedAccess(ix, m)
 		tw[m], tr[m] = w, r
 	}
 	changed := true
 	for changed {
 		changed = false
-		for _, m := range methods {
+		for _, m := range units {
 			for _, cc := range ix.Info[m].Calls {
-				if f := cc.StaticCallee(); f != nil && isMethod[f] {
+				if f := cc.StaticCallee(); f != nil && inUnits[f] {
 					if tw[f] && !tw[m] {
 						tw[m] = true
 						changed = true
@@ -133,7 +148,7 @@ func runC18(c *Ctx) {
 	changed = true
 	for changed {
 		changed = false
-		for _, m := range methods {
+		for _, m := range units {
 			if covered[m] || token.IsExported(m.Name()) {
 				continue
 			}
@@ -153,7 +168,7 @@ func runC18(c *Ctx) {
 			}
 		}
 	}
-	for _, m := range methods {
+	for _, m := range units {
 		if token.IsExported(m.Name()) {
 			continue
 		}
@@ -267,31 +282,59 @@ func runC18JoinGuards(c *Ctx) {
 			})
 		}
 		c.check(len(viol) == 0 && n >= 3, "join-guards", fnKey(fn)+"#range", p.FnPos(fn), "a requested seat is joined only when 0 <= id < max; otherwise the id comes from the available seats", "Join can touch a seat outside the table", uniq(viol, 3)...)
-		// ErrNoAvailableSeat exactly when both lists are empty
+		// ErrNoAvailableSeat exactly when both lists are empty; a seat is drawn from a list only when
+		// that list is non-empty. Decided on a grid over the two list lengths, so the tests may be
+		// written in any form (len == 0, len > 0, a pool chosen first, ...)
 		var bad []string
 		for _, ps := range paths {
+			noSeat := false
 			if len(ps.Ret) == 2 {
 				if name, ok := c.sentinelError(ps.Ret[1]); ok && strings.HasSuffix(name, "ErrNoAvailableSeat") {
-					e1 := hasCond(ps, func(v *Val) bool { return v.K == KAtom && v.At.Op == "eq" && !v.Neg && strings.Contains(v.At.A.String(), "getAvailableSeats(recv)#0") })
-					e2 := hasCond(ps, func(v *Val) bool { return v.K == KAtom && v.At.Op == "eq" && !v.Neg && strings.Contains(v.At.A.String(), "getAvailableSeats(recv)#1") })
-					if !e1 || !e2 {
-						bad = append(bad, "no-seat error on path ["+ps.CondString()+"] without both lists being empty")
-					}
+					noSeat = true
 				}
 			}
-			if len(ps.Calls(".join")) > 0 && strings.Contains(ps.Calls(".join")[0].Args[1].String(), "getAvailableSeats(") {
-				// joins from list k only if list k non-empty
-				a := ps.Calls(".join")[0].Args[1].String()
-				k := "#0"
-				if strings.Contains(a, "getAvailableSeats(recv)#1") {
-					k = "#1"
-				}
-				if !hasCond(ps, func(v *Val) bool {
-					return v.K == KAtom && strings.Contains(v.At.String(), "len(pokerface") == false && strings.Contains(v.At.String(), "getAvailableSeats(recv)"+k)
-				}) {
-					bad = append(bad, "a seat is drawn from a list without testing that the list is non-empty")
+			drawn := ""
+			if js := ps.Calls(".join"); len(js) > 0 && strings.Contains(js[0].Args[1].String(), "getAvailableSeats(") {
+				drawn = "#0"
+				if strings.Contains(js[0].Args[1].String(), "getAvailableSeats(recv)#1") {
+					drawn = "#1"
 				}
 			}
+			if !noSeat && drawn == "" {
+				continue
+			}
+			ints, bools := tableVars([]*PathSum{ps})
+			var l0, l1 string
+			for _, t := range ints {
+				if strings.HasPrefix(t, "len(") && strings.Contains(t, "getAvailableSeats(recv)#0") {
+					l0 = t
+				}
+				if strings.HasPrefix(t, "len(") && strings.Contains(t, "getAvailableSeats(recv)#1") {
+					l1 = t
+				}
+			}
+			feasible := false
+			enumGridR(ints, func(name string) (int64, int64) { return 0, 2 }, bools, nil, func(a Asg) bool {
+				holds, ok := evalPath(ps, a)
+				if !ok || !holds {
+					return true
+				}
+				feasible = true
+				if noSeat && (l0 == "" || l1 == "") {
+					bad = append(bad, "no-seat error on path ["+ps.CondString()+"] without looking at both lists")
+					return false
+				}
+				if noSeat && (a.I[l0] != 0 || a.I[l1] != 0) {
+					bad = append(bad, fmt.Sprintf("no-seat error although the lists hold %d and %d seats", a.I[l0], a.I[l1]))
+					return false
+				}
+				if drawn == "#0" && (l0 == "" || a.I[l0] < 1) || drawn == "#1" && (l1 == "" || a.I[l1] < 1) {
+					bad = append(bad, "a seat is drawn from a list that may be empty")
+					return false
+				}
+				return true
+			})
+			_ = feasible
 		}
 		c.check(len(bad) == 0, "join-guards", fnKey(fn)+"#no-seat", p.FnPos(fn), "no-available-seat is reported only when both lists are empty", "no-seat error reported wrongly", uniq(bad, 3)...)
 	}
@@ -568,7 +611,7 @@ func runSentinels(c *Ctx, rule string) {
 						}
 						// idiom (b): dominating playable-count test in this function
 						need := int64(1)
-						if dominatingCountTest(du.Instr, countFns, need) && callee.Name() == "getPlayableSeat" {
+						if callee.Name() == "getPlayableSeat" && guardedUpTheChain(ix, fn, du.Instr, 0, func(in ssa.Instruction) bool { return dominatingCountTest(in, countFns, need) }) {
 							note(key, pos, true, "dominated by a playable-count test that implies the search succeeds")
 							continue
 						}
@@ -618,7 +661,7 @@ func runSentinels(c *Ctx, rule string) {
 						continue
 					}
 					// (2) the field was just assigned from a checked / count-guarded search in this function
-					if assignedFromGuardedSearch(du.Instr, load, countFns) {
+					if assignedFromGuardedSearch(ix, du.Instr, load, countFns) {
 						note(key, pos, true, "the field was just set from a search guarded by a playable-count test")
 						continue
 					}
@@ -673,7 +716,7 @@ func fieldNilChecked(use ssa.Instruction, field string) bool {
 
 // assignedFromGuardedSearch: the loaded field value was stored earlier in the same block
 // region from a sentinel search whose call is dominated by a count test (>= 1).
-func assignedFromGuardedSearch(use ssa.Instruction, load *ssa.UnOp, countFns map[*ssa.Function]bool) bool {
+func assignedFromGuardedSearch(ix *Index, use ssa.Instruction, load *ssa.UnOp, countFns map[*ssa.Function]bool) bool {
 	fa := load.X.(*ssa.FieldAddr)
 	fn := use.Parent()
 	for _, b := range fn.Blocks {
@@ -690,7 +733,7 @@ func assignedFromGuardedSearch(use ssa.Instruction, load *ssa.UnOp, countFns map
 				continue
 			}
 			if call, ok := st.Val.(*ssa.Call); ok && call.Common().StaticCallee() != nil {
-				if dominatingCountTest(call, countFns, 1) {
+				if guardedUpTheChain(ix, fn, call, 0, func(in ssa.Instruction) bool { return dominatingCountTest(in, countFns, 1) }) {
 					return true
 				}
 			}
@@ -702,8 +745,19 @@ func assignedFromGuardedSearch(use ssa.Instruction, load *ssa.UnOp, countFns map
 // callersGuardedByCount: every caller of fn calls it on a path dominated by a count test
 // implying count >= need, and inside fn no guarded store can precede the use.
 func callersGuardedByCount(ix *Index, fn *ssa.Function, use ssa.Instruction, countFns map[*ssa.Function]bool, need int64) bool {
-	if dominatingCountTest(use, countFns, need) {
+	return guardedUpTheChain(ix, fn, use, 0, func(in ssa.Instruction) bool { return dominatingCountTest(in, countFns, need) })
+}
+
+// guardedUpTheChain: the instruction is dominated by the wanted test in its own function, or no
+// seat flag can be stored before it in its function and every call site of that function is
+// guarded in the same way (package-private call chains of bounded depth). Splitting a function
+// into helpers therefore keeps the guard visible.
+func guardedUpTheChain(ix *Index, fn *ssa.Function, use ssa.Instruction, depth int, guarded func(ssa.Instruction) bool) bool {
+	if guarded(use) {
 		return true
+	}
+	if depth >= 4 {
+		return false
 	}
 	// no seat-flag store before the use inside fn
 	for _, b := range fn.Blocks {
@@ -725,7 +779,7 @@ func callersGuardedByCount(ix *Index, fn *ssa.Function, use ssa.Instruction, cou
 			return false
 		}
 		for _, cs := range sites {
-			if !dominatingCountTest(cs.(ssa.Instruction), countFns, need) {
+			if !guardedUpTheChain(ix, cl, cs.(ssa.Instruction), depth+1, guarded) {
 				return false
 			}
 		}
@@ -736,8 +790,12 @@ func callersGuardedByCount(ix *Index, fn *ssa.Function, use ssa.Instruction, cou
 // calledOnlyAfterDealerFound: every call site of fn (within the package) is dominated by the
 // non-nil edge of a test of nextDealer()'s result.
 func calledOnlyAfterDealerFound(ix *Index, fn, nextDealer *ssa.Function) bool {
+	return afterDealerFound(ix, fn, nextDealer, 0)
+}
+
+func afterDealerFound(ix *Index, fn, nextDealer *ssa.Function, depth int) bool {
 	callers := ix.Callers(fn)
-	if len(callers) == 0 {
+	if len(callers) == 0 || depth >= 4 {
 		return false
 	}
 	for _, cl := range callers {
@@ -753,6 +811,10 @@ func calledOnlyAfterDealerFound(ix *Index, fn, nextDealer *ssa.Function) bool {
 					}
 				}
 			}
+			// or the caller itself is only reached after the dealer was found
+			if !ok && cl != nextDealer && afterDealerFound(ix, cl, nextDealer, depth+1) {
+				ok = true
+			}
 			if !ok {
 				return false
 			}
@@ -764,6 +826,13 @@ func calledOnlyAfterDealerFound(ix *Index, fn, nextDealer *ssa.Function) bool {
 // dealerSearchStoresResult: every non-nil return of nextDealer returns a value that was
 // stored to (or is loaded from) the dealer field.
 func dealerSearchStoresResult(nd *ssa.Function) bool {
+	return dealerStoresResult(nd, 0)
+}
+
+func dealerStoresResult(nd *ssa.Function, depth int) bool {
+	if depth > 3 || nd.Blocks == nil {
+		return false
+	}
 	for _, b := range nd.Blocks {
 		r, ok := b.Instrs[len(b.Instrs)-1].(*ssa.Return)
 		if !ok || len(r.Results) != 1 {
@@ -777,6 +846,12 @@ func dealerSearchStoresResult(nd *ssa.Function) bool {
 			}
 			if loadsField(l, "seat_manager.SeatManager.dealer") {
 				continue
+			}
+			// the result of a package-private helper that itself returns what it stored
+			if call, ok := l.(*ssa.Call); ok {
+				if f := call.Common().StaticCallee(); f != nil && f.Pkg == nd.Pkg && dealerStoresResult(f, depth+1) {
+					continue
+				}
 			}
 			// stored to dealer somewhere dominating the return
 			stored := false
@@ -876,4 +951,15 @@ func argValidatedByCallers(c *Ctx, fn *ssa.Function, call *ssa.Call) (bool, stri
 		return false, ""
 	}
 	return true, "range-checked against max, or drawn from the available seats"
+}
+
+// findSentinelsOf: the sentinel results (nil / -1 on failure) of one function.
+func findSentinelsOf(p *Prog, fn *ssa.Function) []sentinelRes {
+	var out []sentinelRes
+	for _, sr := range findSentinels(p, smPkg) {
+		if sr.Fn == fn {
+			out = append(out, sr)
+		}
+	}
+	return out
 }
